@@ -127,17 +127,24 @@ class SubPackets(collections_abc.MutableMapping, Field):
             return bytearray(self._hashed_raw)
 
         _bytes = bytearray()
-        _bytes += self.int_to_bytes(sum(len(sp) for sp in self._hashed_sp.values()), 2)
+        _bytes += self._area_length(sum(len(sp) for sp in self._hashed_sp.values()))
         for hsp in self._hashed_sp.values():
             _bytes += hsp.__bytearray__()
         return _bytes
+
+    def _area_length(self, n):
+        # the length of a subpacket area is a two-octet field: more than 65535 octets cannot be written
+        # (a longer number would silently shift everything that follows)
+        if n > 0xFFFF:
+            raise PGPError("a signature subpacket area cannot hold {:d} octets (the limit is 65535)".format(n))
+        return self.int_to_bytes(n, 2)
 
     def __unhashbytearray__(self):
         if self._unhashed_raw is not None:
             return bytearray(self._unhashed_raw)
 
         _bytes = bytearray()
-        _bytes += self.int_to_bytes(sum(len(sp) for sp in self._unhashed_sp.values()), 2)
+        _bytes += self._area_length(sum(len(sp) for sp in self._unhashed_sp.values()))
         for uhsp in self._unhashed_sp.values():
             _bytes += uhsp.__bytearray__()
         return _bytes
